@@ -83,10 +83,14 @@ Definition holds_on (c : case) : bool :=
       | Some s =>
           match pend s with
           | [] =>
+              (* byte by byte: a byte whose (block-aligned) line matches the filter of every
+                 flush must hold the reference value in the backing storage *)
               forallb (fun '(line, pid, bytes) =>
-                 if forallb (fun f => line_in_filter (f_bs f) f line pid) fls
-                 then listN_eqb bytes (load (ref s) line (length bytes))
-                 else true) checks
+                 forallb (fun '(i, v) =>
+                    let a := (line + N.of_nat i)%N in
+                    if forallb (fun f => line_in_filter (f_bs f) f a pid) fls
+                    then (v =? mget (ref s) a)%N else true)
+                   (combine (seq 0 (length bytes)) bytes)) checks
           | _ => false
           end
       | None => false
